@@ -12,6 +12,8 @@ The VM indexes without a check at: `self.tera.filters[name]`, `self.tera.tests[n
 `must_get_template(name)?` (includes, root ancestor), `block_lineage.get(block_name)`.
 -/
 import TeraModel.Lemmas.FinalizeRefs2
+import TeraModel.Lemmas.FinalizeRefs3
+import TeraModel.Lemmas.RenderLookups
 namespace Tera.C07Refs
 open Tera.Reg
 
@@ -234,5 +236,68 @@ theorem rejected_iff_unknown_reference (reg : Registered) (ps : List String) (S 
       rw [(flag_iff t p).mpr hunk] at this
       cases this
     · exact herr
+
+/-! ## T2 — the invariant along every registration history -/
+
+/-- **T2.**  After ANY sequence of `add_raw_templates` (single or batched, successful or failing for
+whatever reason) and `autoescape_on` calls on a fresh instance, for every `HashMap` iteration
+order, every stored template `e` satisfies, against what the instance STORES NOW:
+its filter / test / function names are registered; every component it calls is in the stored
+component table and that entry names a template stored now that defines it now (a stale definition
+can never satisfy a reference: a success rebuilds the table from the validated set, a failure
+restores the map and leaves the table alone); every include target resolves to a stored template;
+its stored parents are stored templates; every block of its chain has a non-empty stored lineage
+whose members are stored templates that define the block. -/
+theorem refs_valid_after_any_history (reg : Registered) (prefixes : List String)
+    (ord2 ord3 : List String → List String)
+    (he2 : ∀ ks k, k ∈ ks → k ∈ ord2 ks) (he3 : ∀ ks k, k ∈ ks → k ∈ ord3 ks) (ops : List OpR) :
+    StateRefsValid reg (runOps ord2 ord3 (State.init prefixes) (ops.map (OpR.toOp reg))) := by
+  apply stateRefsValid_history reg ord2 ord3 he2 he3 ops
+  intro k e he
+  simp [State.init, eget] at he
+
+/-- the component clause of T2 on its own (what seeded change C07-2 breaks): whatever the history,
+a component a stored template calls is provided by a template that is stored now and defines it now -/
+theorem no_stale_component (reg : Registered) (prefixes : List String)
+    (ord2 ord3 : List String → List String)
+    (he2 : ∀ ks k, k ∈ ks → k ∈ ord2 ks) (he3 : ∀ ks k, k ∈ ks → k ∈ ord3 ks) (ops : List OpR)
+    (k : String) (e : Entry)
+    (he : eget (runOps ord2 ord3 (State.init prefixes) (ops.map (OpR.toOp reg))).templates k = some e)
+    (c : String) (hc : c ∈ e.tpl.compCalls) :
+    ∃ owner oe, compOwner (runOps ord2 ord3 (State.init prefixes) (ops.map (OpR.toOp reg))).comps c = some owner ∧
+      eget (runOps ord2 ord3 (State.init prefixes) (ops.map (OpR.toOp reg))).templates owner = some oe ∧
+      c ∈ oe.tpl.comps.map (·.name) :=
+  (refs_valid_after_any_history reg prefixes ord2 ord3 he2 he3 ops k e he).2.1 c hc
+
+/-! ## The render skeleton never meets a failing lookup -/
+
+/-- **No unchecked lookup fails at run time** (on the render skeleton of Model/RenderSkel.lean, whose
+`.panic`, `.noLineage` and `.templateNotFound` outcomes are exactly the VM's unchecked lookups:
+`templates[..]`, `components[..]` / `self.template.components[..]`, `block_lineage.get(..)`, the
+lineage chunk of a block, `must_get_template` for includes and for the root ancestor).  For every
+accepted set, every registered template and every fuel, rendering ends in text, in one of the
+checked run-time errors (`super()` without a parent block, the component depth cap) or in fuel
+exhaustion — never in a failed lookup. -/
+theorem render_never_fails_a_lookup (ps : List String) (S : List Tpl) (o2 o3 : List String) (d : Derived)
+    (h : derive ps S o2 o3 = .ok d)
+    (ho2 : ∀ k, has S k = true → k ∈ o2) (ho3 : ∀ k, has S k = true → k ∈ o3)
+    (view : String) (hview : has S view = true) (parents : List String)
+    (hp : lookupParents d.parents view = some parents) (fuel : Nat) :
+    ¬ LookupFailure (renderTpl (envOf ps S d) parents fuel view) := by
+  have hv := envValid_of_derive ps S o2 o3 d h ho2 ho3
+  have hroot : parents.head?.getD view ∈ chainOf view parents := by
+    cases parents with
+    | nil => simp [chainOf]
+    | cons q qs => simp [chainOf]
+  have hreg := hv.chainReg view parents hview hp _ hroot
+  obtain ⟨root, hg⟩ := has_iff_get.mp hreg
+  unfold renderTpl
+  simp only
+  have hg' : get (envOf ps S d).S (parents.head?.getD view) = some root := hg
+  rw [hg']
+  simp only
+  apply run_no_lookup_failure (envOf ps S d) (lookupParents d.parents) hv fuel view
+  · exact ⟨⟨rfl, hview, by intro e he; cases he⟩, by intro cb hcb; cases hcb⟩
+  · exact goodItems_bodyOfTpl hv hp hroot hg
 
 end Tera.C07Refs
